@@ -413,6 +413,14 @@ def rules(rep, m):
         r9.ok()
 
 
+    # R-C10-10 -----------------------------------------------------------
+    r10 = rep.rule("R-C10-10", "a new pool chunk is threaded inside its allocation: every object linked into the free list lies "
+                   "within the chunk for every object size that is a multiple of 8, not only for sizes that divide the "
+                   "page-rounded chunk (shared with R-C20-2, engine IDX)", floor=3)
+    from . import c20
+    c20.threading_rules(rep, r10, m)
+
+
 def run(tier="quick"):
     models = common.load_models(tier)
     rep = Report(PID, tier, models[0])
